@@ -9,8 +9,8 @@ pub fn prop() -> HistProp {
         focus: &["C05"],
         opts: HistOpts { max_ops: 40, ..HistOpts::default() },
         drain: true,
-        quick: 20_000,
-        thorough: 400_000,
+        quick: 150_000,
+        thorough: 2_000_000,
         rule: "operation histories (1-40 ops: sends, indications, clock advances, timer calls exact/early/late up to beyond the deadline, \
 replies addressed to outstanding, finished or unknown ids that are valid, duplicated, unauthenticated, wrongly keyed, with good/bad/absent \
 fingerprints, 401/438 challenges, raw garbage and mutated replies) against a real client with every credential mechanism on both transports, \
